@@ -289,7 +289,7 @@ func (h *hCtx) buildStream(c *chainT) {
 	rng := h.rng
 	saved := h.ctx
 	defer func() { h.ctx = saved }()
-	for i := 0; i < 2; i++ {
+	for i := 0; i < 4; i++ {
 		ordinary := rng.Intn(4) > 0
 		switch rng.Intn(3) {
 		case 0:
@@ -312,6 +312,13 @@ func (h *hCtx) builtMonitor(kind string, ordinary bool, fields ...uint64) {
 	}
 }
 
+// counterAdvanced: after a builder drew nonce n the stored counter is n+1, so the next object gets another key
+func (h *hCtx) counterAdvanced(c *chainT, key []byte, n uint64, kind string) {
+	if v, ok := h.readCounter(c, key); !ok || v != n+1 {
+		h.out.Violate(fmt.Sprintf("after a %s was built with nonce n the id counter is not n+1: the next %s is stored under the key of this one, whose confirmations then name another object than the one they were verified against", kind, kind))
+	}
+}
+
 func buildErr(err error) string {
 	if strings.Contains(err.Error(), "timeout height") {
 		return "err:timeout"
@@ -323,7 +330,10 @@ func (h *hCtx) buildBridgeCall(c *chainT, ordinary bool) {
 	rng := h.rng
 	t := genTin(rng, true, ordinary)
 	cnt, cntArg := uint64(0), "-"
-	if _, set := h.readCounter(c, types.KeyLastBridgeCallID); set || rng.Intn(3) > 0 {
+	if cur, set := h.readCounter(c, types.KeyLastBridgeCallID); set && rng.Intn(2) == 0 {
+		cnt, cntArg = cur, fmt.Sprint(cur) // the counter runs on from the previous build
+		h.out.Count("build:bcall:counter-runs-on")
+	} else if set || rng.Intn(3) > 0 {
 		cnt = genCounter(rng, ordinary || rng.Intn(2) == 0)
 		h.setCounter(c, types.KeyLastBridgeCallID, cnt)
 		cntArg = fmt.Sprint(cnt)
@@ -359,6 +369,7 @@ func (h *hCtx) buildBridgeCall(c *chainT, ordinary bool) {
 		return
 	}
 	h.out.Emit(op, fmt.Sprintf("%d %d %d", bc.Nonce, bc.Timeout, bc.EventNonce))
+	h.counterAdvanced(c, types.KeyLastBridgeCallID, bc.Nonce, "bridge call")
 	c.k.AddOutgoingBridgeCallWithoutBuild(ctx, bc)
 	env := ordinary && cnt < 1<<63 && evn < 1<<63 && t.ext < 1<<62
 	h.builtMonitor("bridge call", env, bc.Nonce, bc.Timeout, bc.EventNonce)
@@ -370,7 +381,10 @@ func (h *hCtx) buildBatch(c *chainT, ordinary bool) {
 	rng := h.rng
 	t := genTin(rng, false, ordinary)
 	cnt, cntArg := uint64(0), "-"
-	if _, set := h.readCounter(c, types.KeyLastOutgoingBatchID); set || rng.Intn(3) > 0 {
+	if cur, set := h.readCounter(c, types.KeyLastOutgoingBatchID); set && rng.Intn(2) == 0 {
+		cnt, cntArg = cur, fmt.Sprint(cur)
+		h.out.Count("build:batch:counter-runs-on")
+	} else if set || rng.Intn(3) > 0 {
 		cnt = genCounter(rng, ordinary || rng.Intn(2) == 0)
 		h.setCounter(c, types.KeyLastOutgoingBatchID, cnt)
 		cntArg = fmt.Sprint(cnt)
@@ -416,6 +430,7 @@ func (h *hCtx) buildBatch(c *chainT, ordinary bool) {
 		return
 	}
 	h.out.Emit(op, fmt.Sprintf("%d %d -", b.BatchNonce, b.BatchTimeout))
+	h.counterAdvanced(c, types.KeyLastOutgoingBatchID, b.BatchNonce, "batch")
 	env := ordinary && cnt < 1<<63 && t.ext < 1<<62
 	h.builtMonitor("batch", env, b.BatchNonce, b.BatchTimeout)
 	h.out.Count(fmt.Sprintf("build:batch:ordinary=%v", env))
